@@ -332,8 +332,8 @@ Definition port_of (c : call) : Z :=
 (* Library state: the content of the dictionary object that is the default value of sv_overrides. *)
 Definition initial_shared : dict := boot_default_sv_overrides.
 
-(* The code as it is now (after the fix): sv_overrides = dict(sv_overrides); sv_overrides.update(kwargs). *)
-Definition boot_step (shared : dict) (c : call) : dict * outcome :=
+(* sv_overrides = dict(sv_overrides); sv_overrides.update(kwargs): the update is made on a copy. *)
+Definition boot_fixed_step (shared : dict) (c : call) : dict * outcome :=
   let d0 := match c_overrides c with Some d => d | None => shared end in
   let options := dict_update d0 (c_kwargs c) in
   let '(dest, ds, r) := boot_core (c_host c) (port_of c) (c_image c) (c_sv c) options (c_clock c) in
@@ -352,6 +352,12 @@ Definition boot_orig_step (shared : dict) (c : call) : dict * outcome :=
       let '(dest, ds, r) := boot_core (c_host c) (port_of c) (c_image c) (c_sv c) options (c_clock c) in
       (options, mkout dest ds r None)
   end.
+
+(* The code as it is NOW: which of the two it is is read from the source on every run
+   (Generated/GenBoot.boot_copies_overrides: is `sv_overrides = dict(sv_overrides)` there, before the update?).
+   Removing the copy from boot.py turns this model into boot_orig_step -- and the history theorems false. *)
+Definition boot_step (shared : dict) (c : call) : dict * outcome :=
+  if boot_copies_overrides then boot_fixed_step shared c else boot_orig_step shared c.
 
 (* a sequence of boots in one process *)
 Fixpoint run (step : dict -> call -> dict * outcome) (st : dict) (cs : list call) : dict * list outcome :=
